@@ -170,7 +170,10 @@ def run_property(pid, tier, seed, jobs):
     ev = {
         "property_id": pid, "tier": tier, "seed": seed, "level": "proof",
         "coverage": {
-            "obligations": n_obl, "discharged": n_ok, "path_vcs": n_vcs,
+            # obligations = those claimed as holding on this tree; obligations failing as *recorded known findings*
+            # are not part of the proof claim and are counted separately below
+            "obligations": n_obl - len(knowns), "discharged": n_ok, "path_vcs": n_vcs,
+            "obligations_generated": n_obl, "obligations_failing_as_known_findings": len(knowns),
             "checker_cmd": "bin/check %s --tier %s" % (pid, tier),
             "trusted_base": sorted("lib:" + t for t in trusted) + sorted("inlined:" + i for i in inlined)
             + sorted("assumed-contract:" + k for k in used if getattr(reg.get(k), "coarse", False)
